@@ -215,10 +215,7 @@ class World:
             elif k == 'reoffer':  # dispatch again every event whose dispatch was rejected so far
                 self._reoffer(op[1])
             elif k == 'raise':
-                ex = EXC[op[1]](f'boom {who}')
-                self.excs[id(ex)] = f'{op[1]}@{who}'
-                self.keep.append(ex)
-                raise ex
+                self._raise(who, op[1])
             elif k == 'ret':
                 return self._retval(who, op[1])
             elif k == 'idle':
@@ -276,10 +273,7 @@ class World:
             elif k == 'burst':
                 self._burst(who, op, local, ctxn)
             elif k == 'raise':
-                ex = EXC[op[1]](f'boom {who}')
-                self.excs[id(ex)] = f'{op[1]}@{who}'
-                self.keep.append(ex)
-                raise ex
+                self._raise(who, op[1])
             elif k == 'ret':
                 return self._retval(who, op[1])
             elif k == 'mark':
@@ -287,6 +281,21 @@ class World:
             else:
                 raise RuntimeError(f'op {op} not allowed in a sync handler')
         return None
+
+    def _raise(self, who, kind):
+        """raise a harness-made exception whose identity is tracked; 'Chained' = raise ... from ... (has __cause__ and __context__)"""
+        if kind == 'Chained':
+            try:
+                raise KeyError('inner cause')
+            except KeyError as inner:
+                ex = Custom(f'boom {who}', payload={'k': 1})
+                self.excs[id(ex)] = f'Chained@{who}'
+                self.keep.append(ex)
+                raise ex from inner
+        ex = EXC[kind](f'boom {who}')
+        self.excs[id(ex)] = f'{kind}@{who}'
+        self.keep.append(ex)
+        raise ex
 
     def _retval(self, who, v):
         if isinstance(v, str) and v.startswith('exc:'):
